@@ -53,7 +53,9 @@ def sfnt_slices(data, ents):
     The last directory entry wins for a duplicated tag (mapping semantics)."""
     out = {}
     for tag, cs, off, ln in ents:
-        if off + ln <= len(data):
+        if ln == 0:
+            out[tag] = b""  # an empty slice is empty wherever it is said to start
+        elif off + ln <= len(data):
             out[tag] = data[off : off + ln]
         else:
             out[tag] = None
@@ -114,8 +116,8 @@ def woff_slices(data, ents):
     out = {}
     for tag, off, cl, ol, cs in ents:
         v = None
-        if off + cl <= len(data):
-            raw = data[off : off + cl]
+        if off + cl <= len(data) or cl == 0:
+            raw = data[off : off + cl] if cl else b""
             if cl == ol:
                 v = raw
             elif cl < ol:
@@ -225,7 +227,7 @@ def woff2_null_slices(data):
     out = {}
     off = 0
     for tag, flags, ol, tl in ents:
-        out[tag] = stream[off : off + ol] if off + ol <= len(stream) else None
+        out[tag] = stream[off : off + ol] if (off + ol <= len(stream) or ol == 0) else None
         off += ol
     if off != len(stream) or hdr["length"] != len(data):
         return None  # the format requires rejection; outcome type only
